@@ -117,6 +117,7 @@ func init() {
 			{"init-body", "Body initialised on every successful Open path", ruleInitBody},
 			{"nil-guard", "Table.Grid dereferences are nil-guarded", ruleNilGuardGrid},
 			{"typed-nil", "readers whose result becomes an interface value never return (nil, nil)", ruleTypedNil},
+			{"div-guard", "no integer division or remainder on the Open path has a divisor that can be zero (constant, or kept from zero by dominating comparisons)", ruleDivGuard},
 			{"untrusted-size", "no allocation on the Open path is sized from archive directory fields", ruleUntrustedSize},
 			{"iter-progress", "iterator loops are left when the advancing call fails without progress", ruleIterProgress},
 			{"grid-bound", "index and slice bounds on t.Grid.Cols follow from the dominating comparisons (difference-bound proof per use)", ruleGridBound},
@@ -134,6 +135,7 @@ func init() {
 			{"global-state", "classification of every package-level variable by reachable writers (mutation summaries over the VTA call graph)", func(r *Run) { ruleGlobalState(r, nil) }},
 			{"clone-alias", "documents derived from one another (template rendering) share no object the library can later change", ruleCloneAliasFor()},
 			{"clone-pure", "deriving a document from another (template rendering) never writes to the source document: two goroutines rendering from one template work on distinct documents and must not meet in the shared base", ruleClonePure},
+			{"shared-writer-sync", "methods of a struct with a process-wide instance (the logger) never write to its io.Writer field directly without the object's mutex", ruleSharedWriterSync},
 			{"pool-escape", "nothing taken from a package-level sync.Pool is returned to callers", rulePoolEscape(pkgDoc, pkgSty, pkgMd)},
 		},
 		Assumptions: commonAssumptions,
@@ -186,6 +188,10 @@ func init() {
 			{"alloc-append-atomic", "between taking a relationship id from the allocator and adding the relationship that carries it, nothing runs that can add another relationship (which would be given the same id)", ruleAllocAppendAtomic},
 			{"counter-numeric", "the restored image counter is a numeric maximum, not a lexicographic one", ruleCounterNumeric},
 			{"counter-monotonic", "the image counter only ever increases after Open", ruleCounterMonotonic("Document")},
+			{"rel-append-only", "image relationships are only ever added: the relationship an earlier picture resolves through is never removed or rewritten", ruleRelAppendOnly},
+			{"part-pass/no-delete", "no media part is ever deleted from the package while drawings that are not enumerated (nested tables, content controls, headers) may still refer to it", filtered(rulePartPass, "part-pass:delete", "part-pass:no-delete")},
+			{"cross-call-state", "format and pixel size handed to the image registration are those of the bytes given in this call: the template engine keeps nothing from earlier renders", ruleCrossCallStateEngine},
+			{"axis-dim", "dimensional analysis over the picture axes: what is stored as a horizontal extent has unit width, as a vertical extent unit height, on every path where the unit is determined", ruleAxisDim},
 			{"size-precedence", "explicit width+height is decided before the aspect-ratio flag is consulted (dominance)", ruleSizePrecedence},
 			{"scale-before-trunc", "the requested millimetres are scaled to EMU before the float→integer conversion (no conversion applied to the raw size)", ruleScaleBeforeTrunc},
 			{"clone-alias", "a rendered document does not share relationship, content-type or part tables with its template", ruleCloneAliasFor("Relationships", "ContentTypes", "Document")},
@@ -345,6 +351,7 @@ func init() {
 			{"softbreak-space", "a true SoftLineBreak() always leads to the emission of a space (must-pass-through)", ruleSoftBreakSpace},
 			{"fixpoint-progress", "rewrite-until-no-match loops make progress: the replacement callback never returns its argument unchanged on a feasible path", ruleFixpointProgress},
 			{"source-agree", "the renderer reads node text from the very buffer that was parsed (same SSA value)", ruleSourceAgree},
+			{"child-filter", "a loop over the children of a list item, block quote or document that hands children on behind a type test leaves no child of another kind unhandled", ruleChildFilter},
 			{"parse-context-fresh", "a parser.Context handed to goldmark's Parse is created for that call (link reference definitions do not survive into the next conversion)", ruleParseContextFresh},
 			{"segment-value", "segment text is read through Segment.Value (padding of indented code kept), never cut out of the source by raw offsets", ruleSegmentValue},
 		},
